@@ -35,7 +35,7 @@ PROPS = {
              "distinct = distinct decoded choice sequences (64-bit hash), united over shards.",
         assumptions=["long double products/residuals act as reference for double computations",
                      "1 OpenMP thread: library results are deterministic, so bitwise comparison of two constructions is meaningful",
-                     "for schur_pressure_correction (known finding F-unsorted-schur) agreement is asserted within 2000*u*n instead of bitwise"],
+                     "matrices without stored entries are excluded from the col_data()/val_data() pointer check of the tuple adapter (known finding F-tuple-data-empty)"],
         min_nontrivial=500,
     ),
 }
